@@ -525,6 +525,11 @@ def run(ctx, chk):
     # writer/reader agreement clauses of C16 as necessary conditions of the round trip
     import rules_c16
     from report import Sub
+    # text fields: same code page both ways, decoder strips nothing but the excluded trailing NULs (shared with C17-e)
+    import rules_c17
+    sub_t = Sub(chk, "C01-c", lambda r: r in ("C17-e/text-pairing", "C17-e/text-codepage", "C17-e/text-trim"))
+    rules_c17.text(sub_t, [ctx.crate("zvt_builder"), ctx.crate("zvt")])
+    chk.floor("text codec obligations (shared with C17-e)", sub_t.count, 4)
     sub = Sub(chk, "C01-g", lambda r: r.startswith(("C16-b/", "C16-d/", "C16-e/", "C16-f/")))
     rules_c16.run(ctx, sub)
     chk.floor("length-style agreement obligations (shared with C16)", sub.count, 20)
